@@ -16,7 +16,7 @@ from pbv import core, integ, scen
 
 BASE = dict(MaxRange=6, RecStep=3, MinStep=1, TimeStep=0, Extra=True, MaxRange2=0, RecStep2=0, Adv="{1, 2, 3}",
             WindEnds="<<>>", Limits="{}", MuzzleSide=-1, BarrelAbove=True, StartSup=1, LoopRule='"owed"',
-            SockRule='"strict"', MaxIt=40, MaxStall=0, SupSet="{0, 1}", FreeSide=True)
+            SockRule='"strict"', MaxIt=80, MaxStall=0, SupSet="{0, 1}", FreeSide=True)
 
 INVS = {
     "C03": ["C03_OneRowPerMultiple", "C03_FirstRowIsMuzzle", "C03_RecordedWhenReached", "C03_TimeGap"],
@@ -56,7 +56,8 @@ CONFIGS = {
 THOROUGH_EXTRA = {
     "C03": [("long range", dict(MaxRange=12, RecStep=4, MinStep=2, Adv="{1, 2, 3, 4}"), True),
             ("long, odd", dict(MaxRange=11, RecStep=5, MinStep=1, Adv="{1, 3, 5}"), True)],
-    "C04": [("limits, longer", dict(MaxRange=9, Limits='{"Vel", "Drop", "Alt"}', Adv="{0, 1, 3}", MaxStall=4, SupSet="{1}", FreeSide=False), True)],
+    "C04": [("limits, longer", dict(MaxRange=9, Limits='{"Vel", "Drop", "Alt"}', Adv="{0, 1, 3}", MaxStall=4, SupSet="{1}", FreeSide=False,
+                                    MaxIt=120), True)],
     "C11": [("three-to-one", dict(MaxRange=12, RecStep=6, MaxRange2=9, RecStep2=2, Adv="{1, 2}"), False)],
     "C12": [("five segments", dict(MaxRange=10, WindEnds="<<0, 0, 3, 3, 7, 12>>", Adv="{1, 2, 4}"), False)],
     "C15": [("longer", dict(MaxRange=10, RecStep=5, MuzzleSide=-1, BarrelAbove=True, Adv="{1, 2}"), False)],
